@@ -50,7 +50,15 @@ func (e *Env) state() *State {
 
 // evalBool evaluates a clause to a Bool term.
 func (e *Env) evalBool(x Expr) Term {
+	hadErr := e.err != nil
 	v := e.eval(x)
+	if !hadErr && e.err != nil && missingName(e.err) {
+		// the clause names a field or variable the code no longer has: it can be neither assumed nor proved - an
+		// unconstrained proposition (assuming it adds nothing; an obligation to prove it fails and is reported)
+		e.r.warn("contract clause not evaluable on this code (%v): %s", e.err, trunc(exprString(x), 80))
+		e.err = nil
+		return e.r.ctx.Fresh("unevaluable", SBool)
+	}
 	if v.Kind != VTerm || v.T.Sort != SBool {
 		e.fail("clause is not boolean: %s", exprString(x))
 		return tTrue
@@ -973,4 +981,9 @@ func (e *Env) cellRange(cell Term, et types.Type) {
 	}
 	lo, hi := intRange(et)
 	e.r.ctx.Assert(And(Le(mkBig(lo), cell), Le(cell, mkBig(hi))))
+}
+
+func missingName(err error) bool {
+	m := err.Error()
+	return strings.Contains(m, "no field") || strings.Contains(m, "unknown identifier")
 }
